@@ -11,7 +11,7 @@ const char * TAGS10[10] = { "i8", "i16", "i32", "i64", "u8", "u16", "u32", "u64"
 struct IntConv { std::vector<Fn> to_fixed; std::vector<Fn> from_fixed; Fn add_fT, add_Tf; };
 IntConv IC[8];
 Fn UDL_INT;
-template<int TI> void j_int_to_fixed(Ctx & c, int64_t nraw, int64_t, int64_t)
+template<int TI> void j_int_to_fixed(Ctx & c, int64_t nraw, int64_t light, int64_t)
   {
   const IntType & t = INT_TYPES[TI];
   i128 n = int_value(t, nraw);
@@ -27,12 +27,15 @@ template<int TI> void j_int_to_fixed(Ctx & c, int64_t nraw, int64_t, int64_t)
     };
   for(size_t ci = 0; ci < g_cfgs.size(); ++ci)
     {
-    for(auto & f : IC[TI].to_fixed)
+    for(size_t fi = 0; fi < IC[TI].to_fixed.size(); ++fi)
       {
+      if(light == 1 && fi != 0 && fi != 3) continue; // b = 1: constructor and integral_to_fixed only (exhaustive 32-bit sweeps)
+      auto & f = IC[TI].to_fixed[fi];
       CallRes r = c.call(f.f[ci], nraw, 0);
       if(r.sig) { c.signal_event((int)ci, f.entry.c_str(), nraw, 0, r.sig); continue; }
       judge(f, ci, r.v, false);
       }
+    if(light == 1) continue;
     // implicit promotion in mixed arithmetic: 0 + n and n + 0
     for(const Fn * f : { &IC[TI].add_fT, &IC[TI].add_Tf })
       {
@@ -49,6 +52,7 @@ template<int TI> void j_int_to_fixed(Ctx & c, int64_t nraw, int64_t, int64_t)
   }
 template<int TI> void j_fixed_to_int(Ctx & c, int64_t x, int64_t, int64_t)
   {
+  if(!model_finite(x)) return;
   const IntType & t = INT_TYPES[TI];
   i128 k = (i128)x >> 16; // floor
   bool rep = k >= t.lo && k <= t.hi;
@@ -103,7 +107,7 @@ void c04_run(Ctx & c)
     else if(t.bits == 32)
       {
       int64_t step = c.thorough ? 1 : 4099; // thorough: every value of the type
-      for(int64_t v = (int64_t)t.lo + c.shard * step; v <= (int64_t)t.hi; v += c.nshards * step) { c.run_check(TF, v); if((v & 7) == 0 || !c.thorough) c.run_check(RT, v); }
+      for(int64_t v = (int64_t)t.lo + c.shard * step; v <= (int64_t)t.hi; v += c.nshards * step) { c.run_check(TF, v, (c.thorough && (v & 1023)) ? 1 : 0); if((v & 1023) == 0 || !c.thorough) c.run_check(RT, v); }
       }
     uint64_t m = c.share(c.n(60000, 3000000));
     for(uint64_t i = 0; i < m; ++i) { int64_t v = random_of_type(c.rng, t); c.run_check(TF, v); c.run_check(RT, v); }
@@ -174,6 +178,7 @@ void j_from_f32(Ctx & c, int64_t bits, int64_t, int64_t) { judge_from_float<floa
 void j_from_f64(Ctx & c, int64_t bits, int64_t, int64_t) { judge_from_float<double>(c, FROM_F64, bits, bits2d(bits)); }
 void j_to_float(Ctx & c, int64_t raw, int64_t, int64_t)
   {
+  if(!model_finite(raw)) return;
   i128 ar = raw < 0 ? -(i128)raw : (i128)raw;
   bool exact_dom = ar <= ((i128)1 << 53);
   c.stratum(exact_dom ? "to-double-exact-domain" : "to-double-beyond-2^53");
@@ -306,6 +311,7 @@ const char * OPN[4] = { "add", "sub", "mul", "div" };
 inline bool both_nan_d(int64_t x, int64_t y) { return std::isnan(bits2d(x)) && std::isnan(bits2d(y)); }
 template<int TI> void j_mixed(Ctx & c, int64_t a, int64_t t, int64_t)
   {
+  if(!model_finite(a)) return;
   Mixed & m = MX[TI];
   const bool is_int = TI < 8, is_dbl = TI == 9;
   for(size_t ci = 0; ci < g_cfgs.size(); ++ci)
@@ -379,8 +385,15 @@ template<int TI> void j_mixed(Ctx & c, int64_t a, int64_t t, int64_t)
       }
     }
   }
+void j_const_scalar(Ctx & c, int64_t a, int64_t which, int64_t)
+  {
+  if(!model_finite(a)) return;
+  c.stratum("literal-integer-operand");
+  judge_mul_const(c, a, which, 0); judge_div_const(c, a, which, 0);
+  }
 void c16_init()
   {
+  (void)const_scalar_count(); // resolve the literal-operand entry points before worker threads start
   for(int op = 0; op < 4; ++op) OP_FF[op] = resolve((std::string(OPN[op]) + "_ff").c_str());
   CAST_F64 = resolve("cast_f64");
   for(int i = 0; i < 10; ++i)
@@ -399,6 +412,13 @@ extern Property P_C16;
 void c16_run(Ctx & c)
   {
   const auto & L = lattice(); const auto & S = lattice_small();
+  { const Check & KC = P_C16.checks[10]; uint64_t idx = 0; const i128 P63 = (i128)1 << 63;
+    for(size_t k = 0; k < const_scalar_count(); ++k)
+      {
+      for(int64_t a : L) if(c.mine(idx++)) c.run_check(KC, a, (int64_t)k);
+      i128 K = const_scalar_value(k); uint64_t m = c.share(c.n(10000, 1000000));
+      for(uint64_t i = 0; i < m; ++i) c.run_check(KC, (i & 1) || K == 0 ? c.rng.logu() : clamp_finite(((c.rng.next() & 1) ? P63 : -P63) / K + c.rng.range(-4, 4)), (int64_t)k);
+      } }
   for(int ti = 0; ti < 10; ++ti)
     {
     const Check & K = P_C16.checks[(size_t)ti];
@@ -448,8 +468,9 @@ void c16_run(Ctx & c)
 Property P_C16 = { "C16", c16_init, c16_run,
   { { "mixed_i8", j_mixed<0>, "a op t, t op a, a op= t for op in + - * /; a = finite raw, b = scalar (value / IEEE bits)" }, { "mixed_i16", j_mixed<1>, "" }, { "mixed_i32", j_mixed<2>, "" }, { "mixed_i64", j_mixed<3>, "" },
     { "mixed_u8", j_mixed<4>, "" }, { "mixed_u16", j_mixed<5>, "" }, { "mixed_u32", j_mixed<6>, "" }, { "mixed_u64", j_mixed<7>, "" }, { "mixed_f32", j_mixed<8>, "" },
-    { "mixed_f64", j_mixed<9>, "double operand: result bits against IEEE arithmetic on double(a) and t in written order (no compound forms exist)" } },
-  { "integer-exact-path", "integer-beyond-2^31", "promoted-path", "double-operand", "double-special" },
+    { "mixed_f64", j_mixed<9>, "double operand: result bits against IEEE arithmetic on double(a) and t in written order (no compound forms exist)" },
+    { "const_scalar", j_const_scalar, "a*K, K*a, a*=K, a/K, a/=K with a literal integer K at the call site use the integer exactly; a raw, b index of K" } },
+  { "literal-integer-operand", "integer-exact-path", "integer-beyond-2^31", "promoted-path", "double-operand", "double-special" },
   "integer operand beyond +-(2^31-1) on the exact scalar path, or a double operand that is NaN, infinite or zero; distinct by (a,t,type)", {}, {} };
 Registrar R_C16(&P_C16);
 
@@ -458,6 +479,7 @@ Fn A_ADD, A_SUB, A_MUL, A_DIV, A_NEG, A_ADDSUB, A_SUBADD, A_MULI[8], A_DIVI[8];
 #define CALL1(var, fn, x, y) CallRes var = c.call(fn.f[ci], x, y); if(var.sig) { c.signal_event((int)ci, fn.entry.c_str(), x, y, var.sig); continue; }
 void j_comm(Ctx & c, int64_t a, int64_t b, int64_t)
   {
+  if(!model_finite(a) || !model_finite(b)) return;
   c.stratum("commutativity");
   for(size_t ci = 0; ci < g_cfgs.size(); ++ci)
     {
@@ -489,6 +511,7 @@ void j_unit(Ctx & c, int64_t a, int64_t, int64_t)
   }
 void j_triple(Ctx & c, int64_t a, int64_t b, int64_t cc)
   {
+  if(!model_finite(a) || !model_finite(b) || !model_finite(cc)) return;
   for(size_t ci = 0; ci < g_cfgs.size(); ++ci)
     {
     CALL1(ab, A_ADD, a, b)
@@ -516,7 +539,7 @@ void j_triple(Ctx & c, int64_t a, int64_t b, int64_t cc)
   }
 void j_scalar_laws(Ctx & c, int64_t a, int64_t nraw, int64_t ti)
   {
-  if(ti < 0 || ti > 7) return;
+  if(ti < 0 || ti > 7 || !model_finite(a)) return;
   const IntType & t = INT_TYPES[ti]; i128 n = int_value(t, nraw);
   for(size_t ci = 0; ci < g_cfgs.size(); ++ci)
     {
